@@ -338,6 +338,7 @@ func TestC12(t *testing.T) {
 var c09Profile = func() projgen.Profile {
 	pf := projgen.FullProfile
 	pf.MaxControllers, pf.MaxMethods = 3, 4
+	pf.ExtraParams = 6 // long signatures: runs of names declared together with further parameters after them
 	pf.CollidingNames = true
 	pf.Experimental = true
 	pf.NoNamedInMaps = true
